@@ -227,16 +227,17 @@ func (h *HTTP) Start() {
 			h.Teamserver.EventAppend(pk)
 			h.Teamserver.EventBroadcast("", pk)
 
+			// the server object exists before Start returns: a Stop that follows at once finds it
+			h.Server = &http.Server{
+				Addr:    common.GetInterfaceIpv4Addr(h.Config.HostBind) + ":" + h.Config.PortBind,
+				Handler: h.GinEngine,
+			}
+
 			go func() {
 				var (
 					CertPath = h.TLS.CertPath
 					KeyPath  = h.TLS.KeyPath
 				)
-
-				h.Server = &http.Server{
-					Addr:    common.GetInterfaceIpv4Addr(h.Config.HostBind) + ":" + h.Config.PortBind,
-					Handler: h.GinEngine,
-				}
 
 				if h.Config.Cert.Cert != "" && h.Config.Cert.Key != "" {
 					CertPath = h.Config.Cert.Cert
@@ -264,12 +265,13 @@ func (h *HTTP) Start() {
 		h.Teamserver.EventAppend(pk)
 		h.Teamserver.EventBroadcast("", pk)
 
-		go func() {
-			h.Server = &http.Server{
-				Addr:    common.GetInterfaceIpv4Addr(h.Config.HostBind) + ":" + h.Config.PortBind,
-				Handler: h.GinEngine,
-			}
+		// the server object exists before Start returns: a Stop that follows at once finds it
+		h.Server = &http.Server{
+			Addr:    common.GetInterfaceIpv4Addr(h.Config.HostBind) + ":" + h.Config.PortBind,
+			Handler: h.GinEngine,
+		}
 
+		go func() {
 			err := h.Server.ListenAndServe()
 			if err != nil {
 				logger.Error("Couldn't start HTTP handler: " + err.Error())
